@@ -91,11 +91,13 @@ Fixpoint dedup (l : list nat) : list nat :=
   end.
 
 (** C19 in the model, as an executable test next to the theorem: the reference results of a query and
-    of its pruned form coincide (code 4). *)
+    of its pruned form coincide (code 4); the identifiers the harness assigned satisfy the theorem's
+    hypothesis [ids_wf] (code 6). *)
 Definition check_prune (c : gcase) : list nat :=
   match g_schemas c, g_queries c with
   | sch :: _, q :: _ =>
       if directives_wellformed (g_vars c) q then
+        if negb (ids_wf q) then [6] else
         match parse (g_vars c) q, parse (g_vars c) (prune (g_vars c) q) with
         | Some a, Some b =>
             let ra := eval_ref sch FUEL a (g_root c) in
